@@ -277,10 +277,10 @@ Inductive poll_rel (s : state) (p : nat) (pl : poll) : tag -> state -> Prop :=
     poll_rel s p pl TPlain (set_poll s1 p (pid pl)
                        (match o with SCont sb' => LSending sb' | SFin true => LRecv | SFin false => LUpsert end))
 | PR_recv_nil :
-    ppc pl = LRecv \/ ppc pl = LWait -> nth_error (chans s) p = Some VNil ->
+    ppc pl = LRecv \/ ppc pl = LWait \/ ppc pl = LTimedOut -> nth_error (chans s) p = Some VNil ->
     poll_rel s p pl TPlain (set_poll (set_chans s (upd p VEmpty (chans s))) p (pid pl) (LDone RNil))
 | PR_recv_batch : forall b,
-    ppc pl = LRecv \/ ppc pl = LWait -> nth_error (chans s) p = Some (VBatch b) ->
+    ppc pl = LRecv \/ ppc pl = LWait \/ ppc pl = LTimedOut -> nth_error (chans s) p = Some (VBatch b) ->
     poll_rel s p pl TPlain
       (set_poll (set_chans (set_delivered (set_caches s (fst (deliver (pid pl) b (caches s) (delivered s))))
                                           (snd (deliver (pid pl) b (caches s) (delivered s))))
@@ -294,11 +294,18 @@ Inductive poll_rel (s : state) (p : nat) (pl : poll) : tag -> state -> Prop :=
     poll_rel s p pl TPlain (set_poll (set_chans (set_resp s (fupd (resp s) (pid pl) (Some p))) (upd r VNil (chans s)))
                               p (pid pl) LWait)
 | PR_timeout :
-    ppc pl = LWait ->
-    poll_rel s p pl (TTimeout p) (set_poll (spawn_hb s (pid pl)) p (pid pl) (LDone RTimeout)).
+    ppc pl = LWait -> fixed s = false ->
+    poll_rel s p pl (TTimeout p) (set_poll (spawn_hb s (pid pl)) p (pid pl) (LDone RTimeout))
+| PR_timer :
+    ppc pl = LWait -> fixed s = true ->
+    poll_rel s p pl TPlain (set_poll s p (pid pl) LTimedOut)
+| PR_withdraw :
+    ppc pl = LTimedOut -> resp s (pid pl) = Some p ->
+    poll_rel s p pl (TTimeout p)
+      (set_poll (spawn_hb (set_resp s (fupd (resp s) (pid pl) None)) (pid pl)) p (pid pl) (LDone RTimeout)).
 
 Lemma poll_recv_rel s p pl s' :
-  ppc pl = LRecv \/ ppc pl = LWait -> poll_recv s p (pid pl) = Some s' -> poll_rel s p pl TPlain s'.
+  ppc pl = LRecv \/ ppc pl = LWait \/ ppc pl = LTimedOut -> poll_recv s p (pid pl) = Some s' -> poll_rel s p pl TPlain s'.
 Proof.
   unfold poll_recv. intros Hpc H.
   destruct (nth_error (chans s) p) as [[| |b]|] eqn:Ec; try discriminate.
@@ -313,13 +320,15 @@ Qed.
 Lemma poll_step_rel s p k s' :
   poll_step s p k = Some s' ->
   exists pl t, nth_error (polls s) p = Some pl /\ poll_rel s p pl t s' /\
-               (t = TPlain \/ (t = TTimeout p /\ ppc pl = LWait /\ k <> 0)).
+               (t = TPlain \/ (t = TTimeout p /\
+                  ((ppc pl = LWait /\ k <> 0 /\ fixed s = false) \/ (ppc pl = LTimedOut /\ k = 0 /\ resp s (pid pl) = Some p)))).
 Proof.
   unfold poll_step. destruct (nth_error (polls s) p) as [pl|] eqn:Ep; [|discriminate].
   intros H. exists pl.
-  assert (Hgoal : (poll_rel s p pl TPlain s') \/ (poll_rel s p pl (TTimeout p) s' /\ ppc pl = LWait /\ k <> 0));
-    [|destruct Hgoal as [Hg|(Hg & Hg1 & Hg2)]; [exists TPlain|exists (TTimeout p)]; (split; [reflexivity|]); (split; [exact Hg|]); [left; reflexivity|right; auto]].
-  destruct (ppc pl) as [| | |sb| | | |r] eqn:Epc.
+  assert (Hgoal : (poll_rel s p pl TPlain s') \/ (poll_rel s p pl (TTimeout p) s' /\
+             ((ppc pl = LWait /\ k <> 0 /\ fixed s = false) \/ (ppc pl = LTimedOut /\ k = 0 /\ resp s (pid pl) = Some p))));
+    [|destruct Hgoal as [Hg|(Hg & Hg1)]; [exists TPlain|exists (TTimeout p)]; (split; [reflexivity|]); (split; [exact Hg|]); [left; reflexivity|right; auto]].
+  destruct (ppc pl) as [| | |sb| | | | |r] eqn:Epc.
   1-6: left.
   - destruct (resp s (pid pl)) as [r|] eqn:Er.
     + unfold chan_send in H. cbn [chans set_resp] in H.
@@ -348,7 +357,14 @@ Proof.
     + inversion H; subst. apply PR_upsert_none; auto.
   - destruct k as [|k].
     + left. apply poll_recv_rel; auto.
-    + right. inversion H; subst. split; [apply PR_timeout; auto|]. split; [reflexivity|discriminate].
+    + destruct (fixed s) eqn:Ef; inversion H; subst.
+      * left. apply PR_timer; auto.
+      * right. split; [apply PR_timeout; auto|]. left. repeat split; auto.
+  - destruct k as [|k].
+    + destruct (resp s (pid pl)) as [r|] eqn:Er; [|discriminate].
+      destruct (Nat.eqb r p) eqn:Erp; [|discriminate]. apply Nat.eqb_eq in Erp. subst r.
+      inversion H; subst. right. split; [apply PR_withdraw; auto|]. right. auto.
+    + left. apply poll_recv_rel; auto.
   - discriminate.
 Qed.
 
@@ -555,12 +571,15 @@ Proof.
     exists TPlain; split; [apply ST_spawn_poll; auto|apply Hx; reflexivity].
   - intros H. apply poll_step_rel in H. destruct H as (pl & t & Hp & Hr & Ht). exists t.
     split; [eapply ST_poll; eauto|].
-    destruct Ht as [->|(-> & Hpc & Hk)]; [split; intros _; exact I|].
-    destruct k as [|k]; [congruence|]. cbn [hazard is_timeout]. rewrite Hp, Hpc. split.
-    + intros Hh. cbn [tag_ok]. exists pl. split; [exact Hp|].
-      destruct (resp s (pid pl)) as [r|]; [|discriminate].
-      apply negb_false_iff, Nat.eqb_eq in Hh. congruence.
-    + discriminate.
+    destruct Ht as [->|(-> & [(Hpc & Hk & Hf)|(Hpc & Hk & Hrg)])]; [split; intros _; exact I| |].
+    + destruct k as [|k]; [congruence|]. cbn [hazard is_timeout]. rewrite Hp, Hpc, Hf. split.
+      * intros Hh. cbn [tag_ok]. exists pl. split; [exact Hp|].
+        destruct (resp s (pid pl)) as [r|]; [|discriminate].
+        apply negb_false_iff, Nat.eqb_eq in Hh. congruence.
+      * discriminate.
+    + subst k. cbn [hazard is_timeout]. rewrite Hp, Hpc. split.
+      * intros _. cbn [tag_ok]. exists pl. auto.
+      * discriminate.
   - intros H. apply work_step_rel in H. destruct H as (wk & t & Hw & Hr & Ht). exists t.
     split; [eapply ST_work; eauto|].
     destruct Ht as [->|(r & id & f' & -> & Hsub & Hresp & Hf)]; [split; intros _; exact I|].
@@ -571,12 +590,12 @@ Proof.
 Qed.
 
 Inductive reach : state -> Prop :=
-| reach_init : reach init
+| reach_init : forall b, reach (init_of b)
 | reach_step : forall s t s', reach s -> step_rel s t s' -> reach s'.
 
 (* reachable without a hazardous step / without a poll time-out *)
 Inductive greach (ok : state -> tag -> Prop) : state -> Prop :=
-| greach_init : greach ok init
+| greach_init : forall b, greach ok (init_of b)
 | greach_step : forall s t s', greach ok s -> step_rel s t s' -> ok s t -> greach ok s'.
 
 Lemma greach_reach ok s : greach ok s -> reach s.
